@@ -289,6 +289,12 @@ func c07World(t *testing.T, p c07Params) rt.Result {
 		if !mon.Up() {
 			w.Violate("%s session went down when another inbound connection arrived", desc)
 		}
+		// one connection survived and is Established: nothing of this peer dials any more
+		// (the only outbound attempt of the scenario was the one that collided)
+		time.Sleep(20 * time.Second)
+		if n := len(w.Dials()); n != 1 && mon.Up() {
+			w.Violate("%s %d outbound attempts in all although the surviving %s connection has been Established since the collision: something besides it is dialling", desc, n, alive[0])
+		}
 	})
 	return worldResult(out, true, fmt.Sprintf("|%s %s %s %s %v %s", p.IDRel, p.ASRel, p.Mode, p.First, p.Late, outcome), map[string]int{"collisions": 1, "outcome." + p.Mode + "." + outcome: 1})
 }
